@@ -26,6 +26,21 @@ CLAIMS = {
         "technique": "static analysis: dispatch-chain reachability over the class hierarchy, call-site role binding, "
                      "must-pass-through flow, finite-group effect summaries",
     },
+    "C07": {
+        "text": "Decides structural necessary conditions of 'the tableau stays a valid tableau of the right state under any "
+                "history': size/storage fields are written only by the tableau classes and always together; phase vectors "
+                "are never indexed by a column-only (qubit) position; np.insert/np.delete on phase vectors are in range "
+                "under the function's asserts, address the destabilizer/stabilizer halves n_qubits apart and agree with the "
+                "table-row deletions; sign-oblivious row operations never touch tableau matrices without the phase vector, "
+                "row_sum receives and returns the sign vector; derived gates compose (finite Clifford model) to the "
+                "elements their names denote; Stabilizer/MixedStabilizer wrappers agree. All paths of all API functions, "
+                "hence every history. Does not decide the H/P/CNOT column formulas, row_sum arithmetic or symplecticity.",
+        "ref": "DESIGN.md §5.7",
+        "note": "Trusted: hadamard_gate, phase_gate, cnot_gate, row_sum, g_function as named; phase-vector length per module "
+                "(clifford.py: 2n, stabilizer.py: n) from the module docstrings.",
+        "technique": "static analysis: field-ownership (who-may-write) lint, index-kind inference from use, linear "
+                     "worst-case index bounds under asserted preconditions, finite-group effect summaries",
+    },
 }
 
 NA = {f"C{i:02d}": PENDING for i in range(1, 21)}
